@@ -100,6 +100,7 @@ func genClaimsCase(seed int64, si int, prop string) *clCase {
 		end := sbh + c.B - 1
 		ph := sbh + c.W*c.B
 		for nd := 0; nd < clNodes; nd++ {
+			ph = sbh + c.W*c.B
 			if rr.Intn(10) < 4 {
 				continue
 			}
@@ -113,7 +114,7 @@ func genClaimsCase(seed int64, si int, prop string) *clCase {
 				return ph
 			}
 			cl.H = inWin()
-			classes := []string{"valid", "valid", "valid", "during-session", "at-proof-height", "at-proof-height", "late", "over-service", "under-minimum", "unsupported-chain", "app-not-staked", "app-lacks-chain", "node-lacks-chain", "foreign-signer", "resubmitted", "predicting"}
+			classes := []string{"valid", "valid", "valid", "during-session", "at-proof-height", "at-proof-height", "late", "over-service", "under-minimum", "unsupported-chain", "app-not-staked", "app-lacks-chain", "node-lacks-chain", "foreign-signer", "resubmitted", "predicting", "off-boundary-session"}
 			if prop == "C31" {
 				classes = []string{"valid", "at-proof-height", "at-proof-height", "late", "predicting", "predicting", "last-before-proof-height", "during-session"}
 			}
@@ -144,6 +145,12 @@ func genClaimsCase(seed int64, si int, prop string) *clCase {
 			case "predicting":
 				cl.H = ph // the only height at which prediction can work
 				d.Predict = true
+			case "off-boundary-session":
+				// a "session" that starts 1..B-1 blocks after a real session start
+				d.Set.SBH = sbh + 1 + int64(rr.Intn(int(c.B-1)))
+				cl.SBH = d.Set.SBH
+				cl.H = d.Set.SBH + c.B // first height after that pseudo-session's end
+				ph = cl.SBH + c.W*c.B
 			}
 			if cl.H <= chain.BootstrapBlocks {
 				continue
@@ -415,6 +422,9 @@ func checkClaims(r *ev.Run, prop string) {
 						}
 						break
 					}
+					if (cl.SBH-1)%cl.B != 0 {
+						r.Violation("claim-accepted/session-height-off-boundary", fmt.Sprintf("case %d: a claim for \"session\" height %d was accepted; with %d blocks per session the sessions start at 1, %d, %d, ...", si, cl.SBH, cl.B, 1+cl.B, 1+2*cl.B), w)
+					}
 					if curH <= end {
 						r.Violation("claim-accepted/session-not-over", fmt.Sprintf("case %d: claim accepted at height %d, the session ends at %d", si, curH, end), w)
 					}
@@ -497,6 +507,9 @@ func checkClaims(r *ev.Run, prop string) {
 							r.Violation("paid/no-stored-claim", fmt.Sprintf("case %d: proof paid %s without a stored claim for %s", si, delta, key), w)
 						case stored.TotalProofs != d.Total:
 							r.Violation("paid/claim-total-mismatch", fmt.Sprintf("case %d: proof for a set of %d paid against a claim of %d", si, d.Total, stored.TotalProofs), w)
+						}
+						if (cl.SBH-1)%cl.B != 0 {
+							r.Violation("paid/session-height-off-boundary", fmt.Sprintf("case %d: servicer %s was paid %s for a \"session\" starting at height %d (blocks per session %d: not a session start)", si, chain.AddrHex(signer), delta, cl.SBH, cl.B), w)
 						}
 						if d.Used != d.Required {
 							r.Violation("paid/wrong-index", fmt.Sprintf("case %d: proof of leaf %d paid, required leaf is %d", si, d.Used, d.Required), w)
